@@ -1,5 +1,6 @@
 import PyttbModel.Core.Codec
 import PyttbModel.Ops.IndexRun
+import PyttbModel.Ops.IndexForms
 import PyttbModel.Spec.MutArray
 open Lean Pyttb Pyttb.Codec
 namespace Pyttb.Driver.C04
@@ -69,6 +70,35 @@ def runHistory {σ} (s0 : σ) (ops : List (IdxOp Rat)) (stepJ : σ → IdxOp Rat
       Json.mkObj [("out", o), ("state", stateJ s')] :: go s' rest
   Json.mkObj [("steps", Json.arr (go s0 ops).toArray)]
 
+def asKElem (j : Json) : R KElem := do
+  let e ← asStr j
+  match e with
+  | "int" => .ok .pyInt
+  | "npint" => .ok .npInt
+  | "float" => .ok .pyFloat
+  | "seq" => .ok .seq
+  | "other" => .ok .other
+  | _ => .error s!"bad element type {e}"
+
+/-- The Python type of a key object, as the harness classifies it. -/
+def asKeyObj (j : Json) : R KeyObj := do
+  let t ← field j "t" >>= asStr
+  match t with
+  | "int" => .ok .pyInt
+  | "npint" => .ok .npInt
+  | "slice" => .ok .slice
+  | "ndarray" => do let d ← field j "ndim" >>= asNat; .ok (.ndarray d)
+  | "tuple" => .ok .tuple
+  | "seq" => do let es ← field j "elems" >>= asList asKElem; .ok (.seq es)
+  | "other" => .ok .other
+  | _ => .error s!"bad key object type {t}"
+
+def variantJ : Variant → Json
+  | .unknown => Json.str "UNKNOWN"
+  | .linear => Json.str "LINEAR"
+  | .subtensor => Json.str "SUBTENSOR"
+  | .subscripts => Json.str "SUBSCRIPTS"
+
 def writtenJ : Json := Json.mkObj [("written", Json.bool true)]
 
 def ops04 : List (String × Op) := [
@@ -104,7 +134,24 @@ def ops04 : List (String × Op) := [
         | .error _ => (m, rejectJ)
       | .read k => match m.read k with
         | .ok v => (m, readOutJ v)
-        | .error _ => (m, rejectJ)) (fun m => denseJ m.toDense)))
+        | .error _ => (m, rejectJ)) (fun m => denseJ m.toDense))),
+  -- `get_index_variant` on the Python type of a key object
+  ("c04_variant", fun j => do
+    let o ← field j "obj" >>= asKeyObj
+    match getIndexVariant o with
+    | .ok v => .ok (Json.mkObj [("variant", variantJ v)])
+    | .error _ => .ok rejectJ),
+  -- `sptensor.extract` called directly: "rows" (p × n array) or "vec" (one subscript, 1-d); replies like a
+  -- one-step history
+  ("c04_extract", fun j => do
+    let S ← field j "start" >>= asSparse
+    let a : SubsArg ← match fieldOpt j "vec" with
+      | some v => do let r ← asNats v; .ok (SubsArg.vec r)
+      | none => do let r ← field j "rows" >>= asNatMat; .ok (SubsArg.mat r)
+    let out := match S.extractArg a with
+      | .ok vs => Json.mkObj [("vec", ratsJ vs)]
+      | .error _ => rejectJ
+    .ok (Json.mkObj [("steps", Json.arr #[Json.mkObj [("out", out), ("state", sparseJ S)]])]))
 ]
 
 end Pyttb.Driver.C04
